@@ -22,7 +22,7 @@ func init() {
 		Rule: "two kinds of runs. (a) injectivity sweep (one per backend, first runs of the batch): every (type, session, key) over an adversarial alphabet {a . _ / 1 @ P} up to length 2 (quick) / 3 (thorough) is written with a unique tagged value into one store and read back; any read returning another triple's tag is a collision. " +
 			"(b) seeded histories: 2..5 adversarial triples (separators, type-prefix characters, language-like suffixes, empty session, binary bytes, path elements), writes and reads interleaved over two handles per backend, plus a per-session filesystem listing; " +
 			"non-trivial = at least two distinct accepted triples written and read back; distinct = distinct sets of triples",
-		Runs:       map[string]int{"quick": 20000, "thorough": 600000},
+		Runs:       map[string]int{"quick": 20000, "thorough": 6000000},
 		MaxSeconds: map[string]int{"quick": 40, "thorough": 900},
 		Run:        runC11,
 		Prefix: func(tier string, i uint64) []uint64 {
